@@ -80,7 +80,7 @@ CONSTANTS Readers,    \* reader ids, e.g. {"r1", "r2"}
 VARIABLES ex,     \* [XE -> Nat]: generation of the registered handler, 0 = not registered  (Server.resources)
           tm,     \* [XT -> Nat]                                                           (Server.resourceTemplates)
           gen,    \* generations issued so far
-          rd,     \* [Readers -> [st, u, bind, poss]]
+          rd,     \* [Readers -> [st, u, bind, poss, seen, noexact]]  (poss, seen, noexact: ghosts)
           nMut, nRead,
           res     \* result of the last step (output only)
 vars == <<ex, tm, gen, rd, nMut, nRead, res>>
